@@ -42,6 +42,11 @@ def gen(tier, seed):
             for pol in ('quoted', 'quoted_rfc'):
                 cases.append(('all', pol, 'utf-8', False, 'n', ',', None, csvgen.universal_newlines(t), b))
     exhaustive['utf-8 samples of <=3 units from %r with <=%d bytes, all byte partitions' % (units, maxbytes)] = True
+    # a BOM in front of a COMMENT line (the BOM belongs to the first physical line, not to the first record), with and without header
+    for t in ['\ufeff#c\na,b\n', '\ufeff#\r\n#d\nx\n', '\ufeffa\n#c\nb\n', '#c\n\ufeffa\n', '\ufeff#c', '\ufeff##\nid\n1\n']:
+        for pol in ('quoted', 'quoted_rfc'):
+            for hdr in (False, True):
+                cases.append(('all', pol, 'utf-8', hdr, 'n', ',', '#', csvgen.universal_newlines(t), t.encode('utf-8')))
     lat = [0xef, 0xbb, 0xbf, 0xe9, 0x2c, 0x0a, 0x0d, 0x61, 0x22]
     for k in range(1, 5 if tier == 'quick' else 6):
         import itertools
